@@ -428,6 +428,11 @@ fn parse_letters(s: &str) -> Vec<u8> {
         "abc" => b"abc".to_vec(),
         "c64" => vec![0x01, 0x41, 0x81],
         "rk" => vec![0, 1, 2],
+        // value relations between needle bytes: complement, xor 1, +1, sign bit
+        "compl" => vec![0x61, 0x9e],
+        "x1" => vec![0x60, 0x61],
+        "ff" => vec![0x00, 0xff],
+        "sign" => vec![0x7f, 0x80],
         _ => unhex(s),
     }
 }
@@ -483,9 +488,10 @@ fn run_e(
 }
 
 /// E2pad: small cores embedded with every left/right padding of the grid.
-fn run_epad(total: &mut Report, kinds: &[Kind], nmax: usize, hmax: usize, pads: &[usize], seed: u64) {
-    let needles = AllStrings { letters: b"ab".to_vec(), minlen: 1, maxlen: nmax }.all();
-    let hays = AllStrings { letters: b"ab".to_vec(), minlen: 0, maxlen: hmax };
+fn run_epad(total: &mut Report, kinds: &[Kind], letters: &[u8], nmax: usize, hmax: usize, pads: &[usize], seed: u64) {
+    let needles = AllStrings { letters: letters.to_vec(), minlen: 1, maxlen: nmax }.all();
+    let hays = AllStrings { letters: letters.to_vec(), minlen: 0, maxlen: hmax };
+    let fills = [b'z', letters[0]];
     let ht = hays.total();
     let chunk = 512u64;
     let nchunks = (ht + chunk - 1) / chunk;
@@ -498,7 +504,7 @@ fn run_epad(total: &mut Report, kinds: &[Kind], nmax: usize, hmax: usize, pads: 
             ctx.set_needle(needle);
             let subjects = build_all(r, kinds, needle, None, seed);
             hays.for_range(c * chunk, ((c + 1) * chunk).min(ht), |idx, core| {
-                for &fill in &[b'z', b'a'] {
+                for &fill in &fills {
                     for &pl in pads {
                         for &pr in pads {
                             buf.clear();
@@ -617,8 +623,9 @@ fn real_main() {
             let nmax = args.num("nmax", 3) as usize;
             let hmax = args.num("hmax", 8) as usize;
             let pads: Vec<usize> = if thorough { spaces::PADS.to_vec() } else { vec![0, 1, 3, 8, 15, 16, 17, 31, 33] };
-            run_epad(&mut total, &kinds, nmax, hmax, &pads, seed);
-            bounds.insert("E2pad".into(), json!({"needle_len": [1, nmax], "core_len": [0, hmax], "pads": pads, "pad_bytes": "z (foreign), a (needle letter)"}));
+            let letters = parse_letters(&args.str("letters", "ab"));
+            run_epad(&mut total, &kinds, &letters, nmax, hmax, &pads, seed);
+            bounds.insert("E2pad".into(), json!({"letters": hex(&letters), "needle_len": [1, nmax], "core_len": [0, hmax], "pads": pads, "pad_bytes": "z (foreign), the first needle letter"}));
         }
         "ln" => {
             let lengths: Vec<usize> = args
